@@ -18,6 +18,9 @@ from .. import isa
 
 PAIR_OPS = ["mov", "cmpb", "add", "jsr", "xor", "mul", "ash", "ldf", "stf", "ldexp", "stexp", "ldcdf", "tstd", "jmp", "clrb",
             "push", "pop", "call", "ldfps", "stcdi", "ldcif"]
+FP_OPS = ["ldf", "ldd", "stf", "std", "addf", "addd", "subf", "subd", "mulf", "muld", "divf", "divd", "cmpf", "cmpd", "modf", "modd",
+          "tstf", "tstd", "clrf", "clrd", "absf", "absd", "negf", "negd", "ldcfd", "ldcdf", "stcfd", "stcdf", "ldcif", "ldcid",
+          "ldclf", "ldcld", "stcfi", "stcfl", "stcdi", "stcdl", "ldexp", "stexp", "ldfps", "stfps", "stst"]
 BASES = [0o1000, 0o157776, 0o40000]
 FORM_INVS = isa.DESIGN_INVS + ["ExportForm"]
 
@@ -69,6 +72,10 @@ def main(run):
                          label="ISA forms: all mnemonics x representative forms", timeout=600, on_export=rp.add, workers=6))
         jobs.append(dict(cfg_text=isa.cfg(invs=FORM_INVS, ops=PAIR_OPS, gen="all", vals="one", tgts="one", dists="few", bases=[0o1000]),
                          label="ISA forms: selected mnemonics x all operand-form pairs", timeout=600, on_export=rp.add, workers=5))
+    # relative operands written as symbols (the names come from isa.LABEL_NAMES: ordinary symbols, some of which merely begin like a
+    # register or accumulator name): every FP-11 mnemonic and the mnemonics of the pair job
+    jobs.append(dict(cfg_text=isa.cfg(invs=FORM_INVS, ops=FP_OPS + PAIR_OPS, gen="c04", tgts="c04", shapes=["lbl", "lblp"], bases=[0o1000, 0o157776]),
+                     label="ISA forms: relative operands written as symbols", timeout=600, on_export=rp.add, workers=4))
     # decoder and table against each other on every 16-bit word
     jobs.append(dict(cfg_text=isa.cfg(mode="words", invs=["DecoderAgreesWithTable", "NoOverlap", "SynonymsShare", "AliasWithinParent",
                                                            "BaseClean", "NamesDistinct"]),
@@ -92,7 +99,7 @@ def main(run):
         for ln, w in items:
             run.add_nontrivial((base, ln))
     for rec, variant in rp.alone:
-        run.add_nontrivial((rec["a"], rec["sh"], isa.instr_text(rec, variant)))
+        run.add_nontrivial((rec["a"], rec["sh"], isa.render_alone(rec, variant)[0]))
     isa.trace_check(run, rp.trace_cases, "C01 form", "ISA trace: processor machine on the real words of the forms assembled alone")
 
     ptasks = [(rec, i + run.seed) for i, rec in enumerate(sim.exports)]
